@@ -69,6 +69,7 @@ def gen(rng, tier):
         yield Case("rnd", ["rogue"] + base + [rng.choice(FR + ["2"]), rng.choice(FR + ["2"])], big, "rogue")
         if rng.random() < 0.2:
             yield Case("rnd", ["twice"] + base, big, "twice")
+            yield Case("rnd", ["twiceobj"] + base, big, "twice-same-object")
         yield Case("rnd", ["shufflesites"] + base + [rng.choice(FR), rng.choice(FR), rng.randint(0, 1)], big, "shufflesites")
         # Rarefy: counts for a random subset of the rows (sometimes an unknown name, a zero count, nb too large)
         names = [r[0] for r in rows]
